@@ -333,7 +333,7 @@ func (p *parserDoer) onEntries(labels [][]string, timestampsNS []int64,
 	}
 
 	for i, tsns := range timestampsNS {
-		dates[time.Unix(tsns/1000000000, 0).Truncate(time.Hour*24)] = true
+		dates[time.Unix(tsns/1000000000, 0).UTC().Truncate(time.Hour*24)] = true
 		p.tsSpl.spl.Size += len(message[i]) + 26
 	}
 
